@@ -92,9 +92,6 @@ func main() {
 				if w := wpOf(st); w != nil {
 					w.close()
 				}
-				for _, h := range resetHooks {
-					h(st)
-				}
 				runtime.GOMAXPROCS(runtime.NumCPU())
 				st = newState()
 				fmt.Fprintf(w, "%s\t-\n", line)
